@@ -29,6 +29,9 @@ package main
 //@ specfunc optVersion() bool
 //@ -- the name a *os.File was opened with (f.Name()); immutable
 //@ specfunc fileName(f *os.File) Str
+//@ -- the file was opened for writing, created if missing and truncated (set by the assumed contract of os.OpenFile from its
+//@ -- constant flag argument): what is written to it afterwards is the whole content, nothing of an older file remains
+//@ specfunc openedFresh(f *os.File) bool
 
 //@ -- the flag variables are set by the package initialiser (flag.Bool / flag.String never return nil)
 //@ pred flagsOK() = inline != nil && switchFlag != nil && printFlag != nil && syntax != nil && noast != nil
@@ -40,7 +43,7 @@ package main
 //@ pred effName(o string) = ite(o != "", o, ite(namedIn(), flagArg(0) + ".go", ""))
 //@ pred toStdout(e string) = e == "" || e == "-"
 //@ -- w is the destination requested by the effective output name e
-//@ pred isDest(w *os.File, e string) = ite(toStdout(e), w == os.Stdout, w != os.Stdout && fileName(w) == e)
+//@ pred isDest(w *os.File, e string) = ite(toStdout(e), w == os.Stdout, w != os.Stdout && fileName(w) == e && openedFresh(w))
 
 //@ func main
 //@   requires flagsOK()
